@@ -169,13 +169,15 @@ class Maker:
         if self.sym:
             v = symx.real(name, integral=True)
             self.inputs.append((name, 'int', v.t))
+            if hi is not None:
+                self.__dict__.setdefault('int_hi', []).append(v.t == hi)
             if lo is not None:
                 symx.ctx().assume(v.t >= lo)
             if hi is not None:
                 symx.ctx().assume(v.t <= hi)
             return v
         if name not in self.values and self.rng is not None:
-            v = self.rng.choice([0, 1, -1, 2, 3, -7, 100, -1000, 4096, 8192])
+            v = self.rng.choice([0, 1, -1, 2, 3, -7, 100, -1000, 4096, 8192, 40000, 70000, 2**31 + 5, -40000])
             if lo is not None:
                 v = max(v, lo)
             if hi is not None:
@@ -404,13 +406,14 @@ def _robust_constraints(inputs, pos_terms=()):
     return cs
 
 
-def _try_candidates(res, h, inputs, hyps_base, neg, obname, key, timeout_ms, prop, ints=(), pos_terms=()):
+def _try_candidates(res, h, inputs, hyps_base, neg, obname, key, timeout_ms, prop, ints=(), pos_terms=(), int_hi=()):
     """A sat answer was seen for hyps ∧ neg.  Look for a model that replays on the real
     library.  Records a violation / known finding / inconclusive entry."""
     attempts = []
     rb = _robust_constraints(inputs, pos_terms)
     variants = [
         [solve.MARGIN == z3.RealVal('1/1000')] + rb,
+        [solve.MARGIN == 0] + list(int_hi),            # integers at their declared upper bounds
         [solve.MARGIN == z3.RealVal('1/1000000')] + rb,
         [solve.MARGIN == 0] + rb,
         [solve.MARGIN == 0],
@@ -512,7 +515,7 @@ def run_case(prop, name, h, timeout_ms=30000, max_paths=400, allow_exceptions=()
             r, mdl = solve.check_sat(p.pc + base + [solve.MARGIN == 0], timeout_ms)
             if r == 'sat':
                 _try_candidates(res, h, m.inputs, p.pc + base, z3.BoolVal(True),
-                                f'unexpected-exception {tb[:160]}', None, timeout_ms, prop, ints)
+                                f'unexpected-exception {tb[:160]}', None, timeout_ms, prop, ints, getattr(m, 'pos_terms', ()), getattr(m, 'int_hi', ()))
             elif r == 'unknown':
                 res['inconclusive'].append(f'exception path of unknown feasibility: {tb[:200]}')
             continue
